@@ -92,12 +92,18 @@ def sample_doc(voc, variant=0):
     PROV-JSON / PROV-XML / PROV-O expressible spaces; `variant` adds shapes."""
     d = ProvDocument()
     d.add_namespace("ex", uri_text(["a"]))
+    if variant == 7:
+        # nothing at the top level: every record lives in the bundle
+        b = d.bundle("ex:b")
+        b.entity("ex:é-中", {"ex:u": "ünï-中"})
+        b.agent("ex:ag")
+        return d
     if variant % 2:
         d.add_namespace("other", uri_text(["c"]))
     s1 = voc.value("str", "s1")
     if "\r" in s1 or "\\" in s1:
         s1 = "s1"
-    e = d.entity("ex:e", {"ex:s": s1, "ex:u": "ünï-中", "ex:i": 7,
+    e = d.entity("ex:e", {"ex:s": s1, "ex:u": "ünï-中-\U0001F600", "ex:i": 7,
                           "ex:t": voc.value("dt", "t1"), "prov:label": Literal("étiquette", langtag="fr")})
     a = d.activity("ex:a", voc.value("dt", "t1"), None)
     d.wasGeneratedBy(e, a, voc.value("dt", "t2"))
